@@ -345,6 +345,32 @@ let c15_line = function
        Printf.sprintf "FAIL key=%s the generated line-comment regex and 'to the end of its line, including the line break' differ on %s" key (show_word w))
   | _ -> "FAIL malformed case"
 
+(* C15: several comment styles in one scanner state = union of the single-style terminals *)
+let c15_multi = function
+  | [_; L [A why]] -> "OK 0 multi-" ^ why
+  | (_ :: parts) ->
+    let problems = ref [] and checked = ref 0 and skipped = ref 0 in
+    Stdlib.List.iter (function
+        | L [ti; _; multi; L singles] ->
+          if multi = L [A "unsupported"] || Stdlib.List.mem (L [A "unsupported"]) singles then incr skipped
+          else begin
+            let m = regex_of_sx multi in
+            let u = (match Stdlib.List.rev_map regex_of_sx singles with
+                | [] -> Regex.Empty
+                | last :: before -> Stdlib.List.fold_left (fun acc r -> Regex.Alt (r, acc)) last before) in
+            (match RegexEquiv.equiv_check_cp (nat_of_int 3000) m u with
+             | None -> incr skipped
+             | Some None -> incr checked
+             | Some (Some w) ->
+               problems := Printf.sprintf "the %s-comment terminal for several styles differs from the union of the single-style terminals on %s"
+                   (if int_of_sx ti = 3 then "line" else "block") (show_word w) :: !problems)
+          end
+        | _ -> problems := "malformed part" :: !problems) parts;
+    (match !problems with
+     | p :: _ -> "FAIL key=comment-styles-not-union " ^ p
+     | [] -> if !checked > 0 then "OK 1 multi-style-union" else if !skipped > 0 then "SKIP equivalence check out of fuel or regex outside the model" else "OK 0 multi-single")
+  | _ -> "FAIL malformed case"
+
 (* C10 *)
 let c10 = function
   | [_; A "panic"] -> "FAIL key=panic left_factor panicked"
@@ -1384,6 +1410,7 @@ let dispatch (sx : Sexp.t) : string =
   | L (A "lf" :: args) -> c10 args
   | L (A "blk" :: args) -> c15_block args
   | L (A "lin" :: args) -> c15_line args
+  | L (A "cmulti" :: args) -> c15_multi args
   | L (A "lr" :: args) -> c03 args
   | L (A "first" :: args) -> c06_first args
   | L (A "follow" :: args) -> c06_follow args
